@@ -178,16 +178,17 @@ Proof. exists 1, NaN. split; reflexivity. Qed.
 (* independent witnesses, each a recorded defect of pyGAM that is not yet repaired: sample(y) with a skipped bootstrap loop,
    fit_quantile(y) on a fitted model (score / PoissonGAM.predict exposure / unfitted gridsearch / loglikelihood lengths /
    PoissonGAM list targets were repaired in /repo and their exceptions removed) *)
+Definition len_desc := mk_desc CNdarray DFloat [Fin; Fin; Fin] false true true true.
+Lemma len_desc_corrupted : corrupted KLen len_desc.
+Proof. reflexivity. Qed.
+(* the only exception left: LogisticGAM.accuracy / score compare the lengths of X and y only after predicting from X
+   (ValueError is raised, but after X was used) -- all the genuine validation gaps found earlier (score, PoissonGAM.predict
+   exposure, sample, unfitted gridsearch, loglikelihood lengths, fit_quantile on a fitted model, PoissonGAM list targets)
+   were repaired in /repo and their exceptions removed *)
 Lemma entrypoints_refuted :
   ~ (forall e k d fitted skip, In e c11_traces -> applicable e k = true -> corrupted k d -> state_ok e fitted = true ->
        run_trace (e_actions e) d fitted skip = RaisedVE).
-Proof. apply (refuting_sound "LinearGAM" "sample" AY KNonFinite nan_desc true true nan_desc_corrupted). vm_compute. reflexivity. Qed.
-Lemma refuted_sample_y_one_bootstrap :
-  existsb (refuting "LinearGAM" "sample" AY KNonFinite nan_desc true true) c11_traces = true.
-Proof. vm_compute. reflexivity. Qed.
-Lemma refuted_fit_quantile_y_fitted :
-  existsb (refuting "ExpectileGAM" "fit_quantile" AY KNonFinite nan_desc true false) c11_traces = true.
-Proof. vm_compute. reflexivity. Qed.
+Proof. apply (refuting_sound "LogisticGAM" "accuracy" AX KLen len_desc true false len_desc_corrupted). vm_compute. reflexivity. Qed.
 
 (* every listed exception is a genuine failure of the extracted traces (the list is tight) *)
 Lemma exceptions_genuine_sound : forall tr, exceptions_genuine tr = true -> forall x, In x exceptions ->
